@@ -148,6 +148,7 @@ type PathCtx struct {
 	lastNow   *Term
 	chanN     int
 	pendingKF []kfPred
+	quiesceEpoch int // number of vQuiesce calls so far (retry back-off model, RY)
 	deciding  bool // the next checkSat decides an assertion (cross-checked when a mirror solver runs)
 	exploring bool
 	csBudget  int
@@ -543,6 +544,7 @@ func (c *PathCtx) yield(sleep bool) {
 // quiesce runs all other goroutines until none of them can make progress.
 func (c *PathCtx) quiesce() {
 	g := c.cur
+	c.quiesceEpoch++
 	for {
 		any := false
 		for _, o := range c.gors {
